@@ -68,7 +68,7 @@ func modelled(typ string) bool {
 	}
 	switch base {
 	case "threshold", "unanimity", "cnf", "hierarchical", "boolexpr", "msp", "kwshare", "feldmanshare",
-		"feldmanlifted", "feldmanvv", "basepublic", "baseshard", "ecdsasig", "matrix", "sqmatrix", "mvmatrix",
+		"feldmanlifted", "feldmanvv", "pedersenvv", "dkls23partialsig", "basepublic", "baseshard", "ecdsasig", "matrix", "sqmatrix", "mvmatrix",
 		"nat", "int", "natplus", "scalar", "point":
 		_, _, _, ok := curveParams(typ)
 		return ok
@@ -704,7 +704,7 @@ func evaluate(a vh.Args, res *vh.Result, cases []*tcase) {
 				cls += "=accepted"
 			}
 			res.Count(cls, c.canon(), nontrivial)
-			keyBase := typ + "/" + c.mut.Kind
+			keyBase := typ // one key per (type, kind of failure): the operator that exposed it is in Detail/Case
 			if d.Panic != "" {
 				mm("prop", typ+"/panic", "UnmarshalCBOR panics on a "+c.mut.Kind+" mutation at "+c.mut.Path+": "+d.Panic+" (model verdict: "+verdict+" "+arg+")", "C12 (i) decoding never panics (decode total)", true)
 				continue
@@ -714,14 +714,14 @@ func evaluate(a vh.Args, res *vh.Result, cases []*tcase) {
 			if accepted {
 				switch verdict {
 				case "malformed":
-					mm("corr", keyBase+"/malformed-"+arg+"-accepted", "the model's strict decoder refuses the container ("+arg+") but the implementation accepts it", "C12 (iii) decode_rejects_malformed", true)
+					mm("corr", keyBase+"/malformed-"+arg+"-accepted", "the model's strict decoder refuses the container ("+arg+", operator "+c.mut.Kind+" at "+c.mut.Path+") but the implementation accepts it", "C12 (iii) decode_rejects_malformed", true)
 					continue
 				case "unknown-field":
-					mm("corr", keyBase+"/unknown-field-accepted", "a struct carries a key that names no field, the implementation accepts it", "C12 (iii) unknown_field_rejected", true)
+					mm("corr", keyBase+"/unknown-field-accepted", "a struct carries a key that names no field ("+c.mut.Kind+" at "+c.mut.Path+"), the implementation accepts it", "C12 (iii) unknown_field_rejected", true)
 					continue
 				case "invalid":
 					if r, _ := strconv.Atoi(arg); r < 100 {
-						mm("corr", keyBase+"/rule"+arg+"-accepted", "the stream violates constructor rule "+arg+" ("+ruleText(r)+") but the implementation accepts it; re-encoding "+vh.Hex(d.Re), "C12 (iii) typed_decode_valid: decoding validates like construction", true)
+						mm("corr", keyBase+"/rule"+arg+"-accepted", "the stream ("+c.mut.Kind+" at "+c.mut.Path+") violates constructor rule "+arg+" ("+ruleText(r)+") but the implementation accepts it; re-encoding "+vh.Hex(d.Re), "C12 (iii) typed_decode_valid: decoding validates like construction", true)
 						continue
 					}
 				}
@@ -733,7 +733,7 @@ func evaluate(a vh.Args, res *vh.Result, cases []*tcase) {
 					continue
 				}
 				if !d.RtOK {
-					mm("prop", typ+rtKey("/"+c.mut.Kind, d.RtNote), d.RtNote+"; re-encoding "+vh.Hex(d.Re), "C12 (ii) round trip of accepted values", true)
+					mm("prop", typ+rtKey("", d.RtNote), d.RtNote+"; re-encoding "+vh.Hex(d.Re), "C12 (ii) round trip of accepted values", true)
 					continue
 				}
 				if c.lT2 >= 0 && modelled(typ) {
@@ -935,6 +935,8 @@ func ruleText(r int) string {
 		return "point byte length"
 	case 32:
 		return "NatPlus zero"
+	case 34:
+		return "dkls23 partial signature u or w zero"
 	case 101:
 		return "CNF sets form an antichain"
 	case 102:
